@@ -3,6 +3,10 @@
 import json, subprocess
 ALL = ["C%02d" % i for i in range(1, 21)]
 CHECKS = {
+ "C01": dict(cat="model_checking", ref="§5 C01, §4.2",
+   text="KVRead.tla defines the read semantics (unsuperseded live candidate among ancestors) and a transcription of findMatch; KVShapes.tla makes TLC enumerate every DAG shape up to the bound (all ordered parent tuples incl. 3-parent merges and merges of ancestors) and evaluate the expected read of every placement of value/tombstone/nothing at every node. Every (shape, placement, queried node) is replayed on the real server: DAG built through the HTTP API, entries written under one key per placement before each node is committed, GET/HEAD key at every node, plus synthetic key sets in shuffled orders through GetBestKeyVersion/VersionedKeyValue.",
+   note="Trusts TLC and the bound (all shapes with <=5 nodes quick; 6 nodes with 2-parent merges thorough). Only the keyvalue datatype's point reads are driven; other datatypes share the resolver.",
+   tech="TLC exhaustive enumeration of DAG shapes x placements (KVShapes.tla/KVRead.tla) + state-enumeration replay into the real server"),
  "C07": dict(cat="model_checking", ref="§5 C07, §4.1",
    text="DvidDAG.tla is model-checked exhaustively by TLC (all request sequences incl. refused ones within MaxNodes/MaxRepos bounds: Inv_C07, Act_C07_RejectIsStutter); every transition of the TLC state graph and every refused request of the argument domain is replayed on the real server (HTTP through ServeSingleHTTP on a Badger store) with the projected DAG JSON, branch heads and identifier maps compared before and after each request.",
    note="Trusts TLC, the bounded constants (<=4/5 nodes, <=2 repos, <=3 merge parents), and that /api/repo/<u>/info, uuid:branch addressing and branch-versions expose the graph faithfully.",
